@@ -572,6 +572,13 @@ def r5_skip(ctx, ty, m):
             if edge:
                 frontier = e[2][e[1][3].index('stack')] if 'stack' in e[1][3] else None
                 ok_lp = lp[0] == 'var' or (is_call(lp, 'Vec::len') and frontier is not None and s(lp[2][0]) == s(frontier)) or lp == ('const', 0)
+                if ok_lp and lp[0] == 'var':
+                    # a counter kept next to the pushes: it goes up by exactly one per enqueued edge
+                    for i_, j_, st_ in b.stmts():
+                        rv_ = st_.get('rv') or {}
+                        if st_['k'] == 'assign' and rv_.get('k') == 'binop' and rv_['op'].startswith('Add') and rv_['r'].get('k') == 'const' and \
+                                isinstance(rv_['r'].get('val'), int) and rv_['r'].get('val') != 1 and 'usize' in (b.local_ty(st_['place']['local']) or ''):
+                            ok_lp = False
             else:
                 ok_lp = lp == ('const', 0)
             # the object may be completed after its construction (the start item pushed through a helper that also counts it): the value
